@@ -309,3 +309,17 @@ class CodecTuple(_Codec):
   @direct
   def raises_never(self, interp, env):
     return z3.BoolVal(False)
+
+
+# ---------------------------------------------------------------------------
+# "... the same holds for pickling and for copy.deepcopy": copy.deepcopy of a
+# symbolic value is sym_clone(deep=True); for functors the call-behaviour state
+# is copied by Functor._sym_clone, which is under contract in
+# contracts/c07_clone.py -- the same contract is an obligation here.
+
+from contracts.c07_clone import FunctorSymClone as _FunctorSymClone   # noqa: E402  pylint: disable=wrong-import-position
+
+
+@register
+class FunctorDeepCopyKeepsCallBehaviour(_FunctorSymClone):
+  prop = 'C05'
